@@ -178,85 +178,101 @@ func c08Units(tier string, seed int64) []Unit {
 	names := []string{"a", "b", "c"}
 	tb := NewTB("C08")
 	tb.Quiet = true
-	for _, set := range sets {
-		for _, inv := range invVariants {
-			set, inv := set, inv
-			units = append(units, Unit{Name: fmt.Sprintf("C08/actions=%s/invariant=%s", strings.Join(set, "+"), inv), Run: func(c *Ctx) {
-				allSkipB := true
-				for _, k := range set {
-					if k != "skipB" {
-						allSkipB = false
-					}
+	// thorough: the deviation bound is iterated over all action sets (every set at <=3, then every set
+	// at <=4, then <=5), so that a time cap cuts the deepest layer and never leaves a set unexplored
+	var layered []Unit
+	layers := []int{3}
+	if !quick {
+		layers = []int{3, 4, 5}
+	}
+	for _, maxDev := range layers {
+		for _, set := range sets {
+			for _, inv := range invVariants {
+				set, inv, maxDev := set, inv, maxDev
+				uname := fmt.Sprintf("C08/actions=%s/invariant=%s", strings.Join(set, "+"), inv)
+				if !quick {
+					uname += fmt.Sprintf("/deviations<=%d", maxDev)
 				}
-				type bd struct {
-					base  func(int) uint64
-					deep  bool
-					label int
-				}
-				bases := []bd{{BaseZero, false, 0}, {BaseOnes, false, 1}, {BaseMid, false, 2}}
-				if allSkipB {
-					// the "100 skipped tries" path needs 2 draws per try: long streams, one deviation
-					bases = append(bases, bd{BaseOnes, true, 1}, bd{BaseMid, true, 2})
-				}
-				for _, b := range bases {
-					bi, base := b.label, b.base
-					e := &BitDFS{Base: base, Depth: 20, MaxDev: 3, Overrun: false}
-					e.Alpha = LevelAlpha(AlphaAll(3, AlphaEdge), AlphaAll(3, AlphaCoin), AlphaAll(2, AlphaCoin))
-					e.MaxExecs = 40000
-					if !quick {
-						e.Depth, e.MaxDev, e.MaxExecs = 30, 5, 400000
-						e.Alpha = LevelAlpha(AlphaAll(3, AlphaEdge), AlphaAll(3, AlphaCoin), AlphaAll(2, AlphaCoin), AlphaAll(2, AlphaCoin), AlphaAll(2, AlphaCoin))
+				layered = append(layered, Unit{Name: uname, Run: func(c *Ctx) {
+					allSkipB := true
+					for _, k := range set {
+						if k != "skipB" {
+							allSkipB = false
+						}
 					}
-					if b.deep {
-						e.Depth, e.MaxDev = 320, 1
-						e.Alpha = LevelAlpha(AlphaAll(2, AlphaCoin))
+					type bd struct {
+						base  func(int) uint64
+						deep  bool
+						label int
 					}
-					c.R.Bounds = fmt.Sprintf("depth=%d deviations<=%d bases=zeros,ones,mid", e.Depth, e.MaxDev)
-					e.Explore(c, func(src *Source, devs int) {
-						tr := &c08Trace{}
-						actions := map[string]func(*rapid.T){}
-						for i, k := range set {
-							actions[names[i]] = c08Action(tr, names[i], k)
+					bases := []bd{{BaseZero, false, 0}, {BaseOnes, false, 1}, {BaseMid, false, 2}}
+					if allSkipB {
+						// the "100 skipped tries" path needs 2 draws per try: long streams, one deviation
+						bases = append(bases, bd{BaseOnes, true, 1}, bd{BaseMid, true, 2})
+					}
+					for _, b := range bases {
+						bi, base := b.label, b.base
+						e := &BitDFS{Base: base, Depth: 20, MaxDev: 3, Overrun: false}
+						e.Alpha = LevelAlpha(AlphaAll(3, AlphaEdge), AlphaAll(3, AlphaCoin), AlphaAll(2, AlphaCoin))
+						e.MaxExecs = 40000
+						if !quick {
+							e.Depth, e.MaxDev, e.MaxExecs = 30, maxDev, 400000
+							e.Alpha = LevelAlpha(AlphaAll(3, AlphaEdge), AlphaAll(3, AlphaCoin), AlphaAll(2, AlphaCoin), AlphaAll(2, AlphaCoin), AlphaAll(2, AlphaCoin))
 						}
-						if f := c08Invariant(tr, inv); f != nil {
-							actions[""] = f
+						if b.deep && maxDev > 3 {
+							continue // the long one-deviation streams are covered in the first layer
 						}
-						res := rapid.VerifRunSource(tb, src, false, func(t *rapid.T) { t.Repeat(actions) })
-						trace := strings.Join(tr.ev, " ")
-						nAct := strings.Count(trace, "A:")
-						c.Outcome(kindName(res.Kind)+" "+trace, nAct > 0)
-						replay := map[string]any{"engine": "bitdfs", "actions": set, "invariant": inv, "base": bi, "answers": src.Trace}
-						viol := func(clause, detail string) {
-							c.Violate(Violation{Sig: "C08 " + clause, Detail: fmt.Sprintf("%s\nactions %v (names a,b,c in this order), invariant %q\ntrace: %s\nresult: %s %q", detail, set, inv, trunc(trace, 600), kindName(res.Kind), res.Msg), Replay: replay, Devs: devs})
+						if b.deep {
+							e.Depth, e.MaxDev = 320, 1
+							e.Alpha = LevelAlpha(AlphaAll(2, AlphaCoin))
 						}
-						if msg := c08Monitor(tr.ev, inv != ""); msg != "" {
-							viol("discipline "+sigOf(msg), msg)
-						}
-						if tr.nested {
-							viol("two-callbacks-active", "an action or invariant started while another one was still running")
-						}
-						if strings.Contains(res.Msg, "can't find a valid (non-skipped) action") {
-							c.Count("no_valid_action_failures", 1)
-						}
-						falsified := strings.Contains(trace, ":fail")
-						if falsified && res.Kind != rapid.VerifFail && res.Kind != rapid.VerifPanic {
-							viol("falsification-not-reported", "an action or the invariant signalled a failure but the test case was not reported as failed")
-						}
-						if !falsified && (res.Kind == rapid.VerifFail || res.Kind == rapid.VerifPanic) {
-							if allSkipB && nAct > 0 && strings.Contains(res.Msg, "can't find a valid (non-skipped) action") {
-								if nAct != 100 {
-									viol("no-valid-action-tries", fmt.Sprintf("gave up after %d tries", nAct))
-								}
-							} else {
-								viol("failure-without-falsification", "the test case failed although no action or invariant failed")
+						c.R.Bounds = fmt.Sprintf("depth=%d deviations<=%d bases=zeros,ones,mid", e.Depth, e.MaxDev)
+						e.Explore(c, func(src *Source, devs int) {
+							tr := &c08Trace{}
+							actions := map[string]func(*rapid.T){}
+							for i, k := range set {
+								actions[names[i]] = c08Action(tr, names[i], k)
 							}
-						}
-						if allSkipB && nAct > 0 && res.Kind != rapid.VerifFail && !src.Ended {
-							viol("no-failure-when-no-action-can-run", "every action skipped without drawing, yet Repeat did not report a failure")
-						}
-					})
-				}
-			}})
+							if f := c08Invariant(tr, inv); f != nil {
+								actions[""] = f
+							}
+							res := rapid.VerifRunSource(tb, src, false, func(t *rapid.T) { t.Repeat(actions) })
+							trace := strings.Join(tr.ev, " ")
+							nAct := strings.Count(trace, "A:")
+							c.Outcome(kindName(res.Kind)+" "+trace, nAct > 0)
+							replay := map[string]any{"engine": "bitdfs", "actions": set, "invariant": inv, "base": bi, "answers": src.Trace}
+							viol := func(clause, detail string) {
+								c.Violate(Violation{Sig: "C08 " + clause, Detail: fmt.Sprintf("%s\nactions %v (names a,b,c in this order), invariant %q\ntrace: %s\nresult: %s %q", detail, set, inv, trunc(trace, 600), kindName(res.Kind), res.Msg), Replay: replay, Devs: devs})
+							}
+							if msg := c08Monitor(tr.ev, inv != ""); msg != "" {
+								viol("discipline "+sigOf(msg), msg)
+							}
+							if tr.nested {
+								viol("two-callbacks-active", "an action or invariant started while another one was still running")
+							}
+							if strings.Contains(res.Msg, "can't find a valid (non-skipped) action") {
+								c.Count("no_valid_action_failures", 1)
+							}
+							falsified := strings.Contains(trace, ":fail")
+							if falsified && res.Kind != rapid.VerifFail && res.Kind != rapid.VerifPanic {
+								viol("falsification-not-reported", "an action or the invariant signalled a failure but the test case was not reported as failed")
+							}
+							if !falsified && (res.Kind == rapid.VerifFail || res.Kind == rapid.VerifPanic) {
+								if allSkipB && nAct > 0 && strings.Contains(res.Msg, "can't find a valid (non-skipped) action") {
+									if nAct != 100 {
+										viol("no-valid-action-tries", fmt.Sprintf("gave up after %d tries", nAct))
+									}
+								} else {
+									viol("failure-without-falsification", "the test case failed although no action or invariant failed")
+								}
+							}
+							if allSkipB && nAct > 0 && res.Kind != rapid.VerifFail && !src.Ended {
+								viol("no-failure-when-no-action-can-run", "every action skipped without drawing, yet Repeat did not report a failure")
+							}
+						})
+					}
+				}})
+			}
 		}
 	}
 	// unusual step budgets: the initial invariant check does not depend on -rapid.steps / -short
@@ -310,7 +326,7 @@ func c08Units(tier string, seed int64) []Unit {
 			})
 		}
 	}})
-	return units
+	return append(units, layered...)
 }
 
 type reflMachine struct {
